@@ -25,6 +25,9 @@ pub struct Mods {
     pub opts: Option<(u8, bool, i32, i32)>,
     /// each modifier is set twice, first to a throw-away value: the last call wins
     pub twice: bool,
+    /// between setting the modifiers and the operation, ask for the peer certificate: not an LDAP
+    /// operation, so it consumes none of the modifiers
+    pub peer_cert: bool,
 }
 
 #[derive(Clone, Debug)]
@@ -238,6 +241,9 @@ fn run_sync(script: &[SOp], sock: UnixStream) -> Vec<Obs> {
                 if let Some(o) = m.opts {
                     conn.with_search_options(world::search_options(o));
                 }
+                if m.peer_cert {
+                    let _ = conn.get_peer_certificate();
+                }
                 let o = match call {
                     Call::Bind { dn, pw } => lift(conn.simple_bind(dn, pw), |r| Outcome::Res(res_out(&r))),
                     Call::SaslExternal => lift(conn.sasl_external_bind(), |r| Outcome::Res(res_out(&r))),
@@ -276,6 +282,9 @@ fn run_sync(script: &[SOp], sock: UnixStream) -> Vec<Obs> {
                 }
                 if let Some(o) = m.opts {
                     conn.with_search_options(world::search_options(o));
+                }
+                if m.peer_cert {
+                    let _ = conn.get_peer_certificate();
                 }
                 let f = String::from_utf8_lossy(&s.filter_str).into_owned();
                 let st = if *ad == 0 { conn.streaming_search(&s.base, world::scope_of(s.scope), &f, s.attrs.clone()) } else { conn.streaming_search_with(adapters_of(*ad), &s.base, world::scope_of(s.scope), &f, s.attrs.clone()) };
@@ -377,6 +386,9 @@ fn run_async(script: &[SOp], sock: UnixStream) -> Vec<Obs> {
                     } else if let Some(o) = m.opts {
                         ldap.with_search_options(world::search_options(o));
                     }
+                    if m.peer_cert {
+                        let _ = ldap.get_peer_certificate().await;
+                    }
                     // (guard: an operation that never returns is an observation, not a reason to hang the check)
                     let o = match tokio::time::timeout(Duration::from_secs(5), world::invoke(&mut ldap, &call)).await {
                         Ok(Outcome::Err(c, _)) => Outcome::Err(c, String::new()),
@@ -405,6 +417,9 @@ fn run_async(script: &[SOp], sock: UnixStream) -> Vec<Obs> {
                     }
                     if let Some(o) = m.opts {
                         ldap.with_search_options(world::search_options(o));
+                    }
+                    if m.peer_cert {
+                        let _ = ldap.get_peer_certificate().await;
                     }
                     let f = String::from_utf8_lossy(&s.filter_str).into_owned();
                     let st = if *ad == 0 { ldap.streaming_search(&s.base, world::scope_of(s.scope), &f, s.attrs.clone()).await } else { ldap.streaming_search_with(adapters_of(*ad), &s.base, world::scope_of(s.scope), &f, s.attrs.clone()).await };
@@ -460,8 +475,9 @@ pub fn gen_script(rng: &mut Rng, i: u64) -> Vec<SOp> {
         let mods = Mods {
             controls: if rng.chance(1, 3) { Some({ let mut c = gen::gen_req_controls(rng); c.retain(|c| c.oid != PAGED_OID.as_bytes()); c }) } else { None },
             timeout_ms: None,
-            opts: if rng.chance(1, 4) { Some((rng.below(4) as u8, rng.bool(), rng.below(100) as i32, rng.below(100) as i32)) } else { None },
+            opts: if rng.chance(1, 4) { let lim = |r: &mut Rng| if r.chance(1, 4) { *r.pick(&[-1i32, i32::MIN, -70_000, i32::MAX, 32_768, 65_536]) } else { r.below(100) as i32 }; Some((rng.below(4) as u8, rng.bool(), lim(rng), lim(rng))) } else { None },
             twice: rng.chance(1, 5),
+            peer_cert: rng.chance(1, 5),
         };
         let zero_timeout = rng.chance(1, 3);
         let behaviour = match rng.below(12) {
